@@ -168,7 +168,7 @@ Definition ierr_code (e : ierr) : N :=
   | ELabelsNotFound => 1 | ENoDateField => 2 | ENoPayeeField => 3 | ENoValueField => 4 | EExtractor => 5
   | EShortRecord => 6 | EFieldMissing => 7 | ERender => 8 | EDate => 9 | EDecimal => 10
   | ECreditDebitEmpty => 11 | ENoOperator => 12 | ENoRate => 13 | ENoSecondaryCommodity => 14
-  | ENoSecondaryAmount => 15 | ESameCommodityRate => 16
+  | ENoSecondaryAmount => 15 | ESameCommodityRate => 16 | EZeroRate => 17
   end%N.
 
 Definition imp_agrees (o : imp_obs) (m : ires (list stxn)) : bool :=
